@@ -353,7 +353,8 @@ func (c *Collector) cleanup(now int64) {
 
 	c.endpoints.Range(func(url string, data *endpointData) bool {
 		count++
-		if atomic.LoadInt64(&data.lastUsed) < cutoff {
+		// an endpoint with attempts in flight still needs its gauge: dropping the entry would lose them
+		if atomic.LoadInt64(&data.lastUsed) < cutoff && atomic.LoadInt64(&data.activeConnections) == 0 {
 			toRemove = append(toRemove, url)
 		}
 		return true
@@ -370,7 +371,9 @@ func (c *Collector) cleanup(now int64) {
 		}
 		var ages []endpointAge
 		c.endpoints.Range(func(url string, data *endpointData) bool {
-			ages = append(ages, endpointAge{url, atomic.LoadInt64(&data.lastUsed)})
+			if atomic.LoadInt64(&data.activeConnections) == 0 {
+				ages = append(ages, endpointAge{url, atomic.LoadInt64(&data.lastUsed)})
+			}
 			return true
 		})
 		sort.Slice(ages, func(i, j int) bool {
